@@ -523,12 +523,12 @@ func histTx(ctx *pbt.Ctx, c Hist) error {
 				ctx.Discard("malformed case")
 				return nil
 			}
-			js, err := json.Marshal(v)
+			js, err := marshalStep(ctx, v, s.I%2 == 1)
 			if err != nil {
 				ctx.Label("marshal_error:" + s.Form + "." + s.Dialect)
 				continue
 			}
-			k.js = append([]byte{}, js...)
+			k.js = js
 			var prev *kept
 			if s.Into == "prev" {
 				prev = lastOf(held, s.Form, func(h *kept) bool { return h.gTx != nil || h.gTxs != nil || h.gOut != nil })
@@ -671,12 +671,12 @@ func histObj(ctx *pbt.Ctx, c Hist) error {
 				ctx.Discard("malformed case")
 				return nil
 			}
-			js, err := json.Marshal(v)
+			js, err := marshalStep(ctx, v, s.I%2 == 1)
 			if err != nil {
 				ctx.Label("marshal_error:" + c.Kind + "." + s.Form + "." + s.Dialect)
 				continue
 			}
-			k.js = append([]byte{}, js...)
+			k.js = js
 			var prev *kept
 			if s.Into == "prev" {
 				prev = lastOf(held, s.Form, func(h *kept) bool { return h.gOut != nil || h.gUTXO != nil || h.gUTXOs != nil })
@@ -751,8 +751,47 @@ func genSats(t *rapid.T, label string) uint64 {
 	return rapid.Uint64Range(0, MaxSats).Draw(t, label)
 }
 
+// marshalStep renders v either through json.Marshal (which hands out its own copy) or - when
+// direct is set and v has the method - by calling MarshalJSON itself and keeping the very slice
+// it returns: that text is the caller's and is compared again after all later calls.
+func marshalStep(ctx *pbt.Ctx, v interface{}, direct bool) ([]byte, error) {
+	if m, ok := v.(json.Marshaler); ok && direct {
+		ctx.Label("marshal=direct-method-result-kept")
+		return m.MarshalJSON()
+	}
+	js, err := json.Marshal(v)
+	return append([]byte{}, js...), err
+}
+
+// scriptSoup: a few script elements in a row - explicit zero-length pushdata, OP_0, short and
+// key-sized pushes, and the opcodes the classifiers look for - so that the type field of the node
+// dialect is computed for shapes like "4c00 ac".
+func scriptSoup(t *rapid.T, label string) []byte {
+	var s []byte
+	n := rapid.IntRange(1, 4).Draw(t, label+"_n")
+	for i := 0; i < n; i++ {
+		switch rapid.IntRange(0, 9).Draw(t, label+"_el") {
+		case 0:
+			s = append(s, rapid.SampledFrom([][]byte{{0x4c, 0x00}, {0x4d, 0x00, 0x00}, {0x4e, 0x00, 0x00, 0x00, 0x00}, {0x00}}).Draw(t, label+"_empty")...)
+		case 1:
+			d := gen.FillBytes(t, rapid.IntRange(1, 3).Draw(t, label+"_sl"), label+"_sd")
+			s = append(append(s, byte(len(d))), d...)
+		case 2:
+			d := gen.Bytes(t, rapid.SampledFrom([]int{20, 33, 65}).Draw(t, label+"_kl"), label+"_kd")
+			s = append(append(s, byte(len(d))), d...)
+		case 3:
+			s = append(s, 0x4c, 0x02, 0xac, 0xac)
+		default:
+			s = append(s, rapid.SampledFrom([]byte{0xac, 0xac, 0xae, 0xa9, 0x76, 0x88, 0x87, 0x6a, 0x51, 0x52, 0x63, 0x68, 0x00, 0xad}).Draw(t, label+"_op"))
+		}
+	}
+	return s
+}
+
 func genScriptBytes(t *rapid.T, label string) []byte {
-	switch rapid.IntRange(0, 5).Draw(t, label+"_kind") {
+	switch rapid.IntRange(0, 7).Draw(t, label+"_kind") {
+	case 6, 7:
+		return scriptSoup(t, label)
 	case 0:
 		return []byte{}
 	case 1:
